@@ -895,11 +895,247 @@ fn run_pair_dyn(n: usize, fam: &[(String, Vec<bool>)], i: usize, j: usize, rep: 
     dispatch!(n, run_pair(fam, i, j, rep, verbose))
 }
 
+// ------------------------------------------------------------------------------------------------
+// one giant capacity (2^26 words = 2^32 indices, 512 MiB): positions up to 2^32 - 1, and an iterator whose internal
+// position reaches 2^32 at the end of the last word. The model is the sorted
+// list of members; runs on a thread with a stack large enough to hold a few such values.
+
+const GIANT: usize = 1 << 26;
+
+fn run_giant(rep: &mut Report) {
+    rep.inc("evaluations");
+    rep.see_str("nontrivial", "giant");
+    let replay = vec!["--mode".to_string(), "giant".to_string()];
+    let r = std::thread::Builder::new()
+        .stack_size(6usize << 30)
+        .spawn(|| -> Result<(u64, Vec<String>), String> {
+          let caught = catch(|| -> Result<(u64, Vec<String>), String> {
+            let mut bad: Vec<String> = Vec::new();
+            let mut b: Box<Bitset<GIANT>> = Box::new(lib!(Bitset::<GIANT>::new()));
+            let bits = 64 * GIANT;
+            let mut members: Vec<usize> = vec![5, 63, 64, 1 << 31, (1 << 31) + 1, 4_000_000_000, bits - 129, bits - 65, bits - 64, bits - 1];
+            for &i in &members {
+                lib!(b.set(i));
+            }
+            members.sort_unstable();
+            let mut checks = 0u64;
+            let got: Vec<usize> = lib!(b.iter_bits().take(members.len() + 3).collect());
+            checks += 1;
+            if got != members {
+                bad.push(format!("iter_bits yields {:?}, members are {:?}", got, members));
+            }
+            let c = lib!(b.count());
+            checks += 1;
+            if c != members.len() {
+                bad.push(format!("count() = {}, want {}", c, members.len()));
+            }
+            for &i in &members {
+                checks += 3;
+                if !lib!(b.test(i)) {
+                    bad.push(format!("test({}) is false for a member", i));
+                }
+                if i + 1 < bits && !members.contains(&(i + 1)) && lib!(b.test(i + 1)) {
+                    bad.push(format!("test({}) is true for a non-member", i + 1));
+                }
+                if i >= 1 << 31 && !members.contains(&(i - (1 << 31))) && lib!(b.test(i - (1 << 31))) {
+                    bad.push(format!("test({}) is true (alias of member {} modulo 2^31)", i - (1 << 31), i));
+                }
+            }
+            lib!(b.remove(1 << 31));
+            lib!(b.flip((1 << 31) + 2));
+            members.retain(|&i| i != 1 << 31);
+            members.push((1 << 31) + 2);
+            members.sort_unstable();
+            let got: Vec<usize> = lib!(b.iter_bits().skip(3).take(members.len()).collect());
+            checks += 1;
+            if got[..] != members[3..] {
+                bad.push(format!("after remove / flip beyond 2^31: iter_bits().skip(3) yields {:?}, want {:?}", got, &members[3..]));
+            }
+            let last = lib!(b.iter_bits().last());
+            checks += 1;
+            if last != members.last().cloned() {
+                bad.push(format!("iter_bits().last() = {:?}, want {:?}", last, members.last()));
+            }
+            // a second set whose last member is far from the end: the iterator has to walk empty words up to (and its
+            // internal position past) index 2^32 before it may stop
+            lib!(b.clear());
+            let sparse = vec![5usize, 63, 64, 4_000_000_000];
+            for &i in &sparse {
+                lib!(b.set(i));
+            }
+            let got: Vec<usize> = lib!(b.iter_bits().take(sparse.len() + 4).collect());
+            checks += 1;
+            if got != sparse {
+                bad.push(format!("sparse set: iter_bits yields {:?}, members are {:?}", got, sparse));
+            }
+            if !bad.is_empty() {
+                // the unbounded calls below may not terminate on an iterator that is already known to be wrong
+                return Ok((checks, bad));
+            }
+            let (c, last) = (lib!(b.iter_bits().count()), lib!(b.iter_bits().nth(3)));
+            checks += 2;
+            if c != sparse.len() || last != Some(4_000_000_000) {
+                bad.push(format!("sparse set: iter_bits().count() = {}, nth(3) = {:?}", c, last));
+            }
+            lib!(b.clear());
+            let none: Vec<usize> = lib!(b.iter_bits().take(3).collect());
+            checks += 1;
+            if !none.is_empty() {
+                bad.push(format!("empty giant set: iter_bits yields {:?}", none));
+            }
+            Ok((checks, bad))
+          });
+          match caught {
+              Ok(r) => r,
+              Err(p) => {
+                  if p.in_lib {
+                      Ok((0, vec![format!("the library panicked on a lawful call: {} at {}:{}", p.msg, p.file, p.line)]))
+                  } else {
+                      Err(format!("harness panic at {}:{}: {}", p.file, p.line, p.msg))
+                  }
+              }
+          }
+        })
+        .map_err(|e| e.to_string())
+        .and_then(|h| h.join().map_err(|_| "the thread working on the giant bitset panicked".to_string()));
+    match r {
+        Ok(Ok((checks, bad))) => {
+            rep.count("giant_capacity_checks", checks);
+            if !bad.is_empty() {
+                rep.violation(
+                    "giant:N67108864",
+                    Json::obj().set("what", "a bitset of 2^26 words (indices up to 2^32 and beyond) disagrees with its member list").set("problems", Json::from(bad)),
+                    replay,
+                );
+            }
+        }
+        Ok(Err(e)) => rep.inconclusive(format!("giant capacity: {}", e)),
+        Err(e) => {
+            // a panic inside the library on lawful calls is a violation; the payload was swallowed by join, so say so
+            rep.violation("panic:giant", Json::obj().set("what", "a lawful operation on a bitset of 2^26 words panicked").set("note", e), replay);
+        }
+    }
+}
+
+// ------------------------------------------------------------------------------------------------
+// first use: anything the library sets up lazily the first time it renders / counts / iterates is set up once per
+// process. A fresh child process releases 12 threads from a spin barrier into their very first calls; the parent
+// repeats that many times. Every thread compares what it gets with the model of its own bitset.
+
+fn firstuse_child() -> i32 {
+    use std::sync::atomic::{AtomicUsize, Ordering};
+    use std::sync::Arc;
+    let threads = 12usize;
+    let arrived = Arc::new(AtomicUsize::new(0));
+    let hs: Vec<_> = (0..threads)
+        .map(|t| {
+            let arrived = arrived.clone();
+            std::thread::spawn(move || -> Vec<String> {
+                let mut model = vec![false; 64 * 10];
+                let mut x = 0x9E37u64.wrapping_mul(t as u64 + 1);
+                for _ in 0..40 {
+                    x = x.wrapping_mul(6364136223846793005).wrapping_add(1442695040888963407);
+                    model[(x >> 33) as usize % 640] = true;
+                }
+                let want_s = model_string(&model);
+                let want_idx = model_indices(&model);
+                arrived.fetch_add(1, Ordering::SeqCst);
+                while arrived.load(Ordering::SeqCst) < threads {
+                    std::hint::spin_loop();
+                }
+                // everything from here on is this thread's first call into the library
+                let b: Bitset<10> = build::<10>(&model);
+                let mut bad = Vec::new();
+                let s = format!("{}", b);
+                if s != want_s {
+                    bad.push(format!("thread {}: Display differs from the member set (first rendering in this process)", t));
+                }
+                let d = format!("{:?}", b);
+                if !d.contains(&want_s) && d != want_s {
+                    // Debug is only required to be consistent with Display where the crate makes it so: not judged
+                }
+                if b.count() != want_idx.len() {
+                    bad.push(format!("thread {}: count() = {} want {}", t, b.count(), want_idx.len()));
+                }
+                let it: Vec<usize> = b.iter_bits().collect();
+                if it != want_idx {
+                    bad.push(format!("thread {}: iter_bits differs from the member set", t));
+                }
+                let c = !b.clone();
+                if c.count() != 640 - want_idx.len() {
+                    bad.push(format!("thread {}: complement count {}", t, c.count()));
+                }
+                bad
+            })
+        })
+        .collect();
+    let mut rc = 0;
+    for h in hs {
+        match h.join() {
+            Ok(bad) => {
+                for l in bad {
+                    println!("FIRSTUSE-BAD {}", l);
+                    rc = 1;
+                }
+            }
+            Err(_) => {
+                println!("FIRSTUSE-BAD a thread panicked");
+                rc = 1;
+            }
+        }
+    }
+    println!("FIRSTUSE-DONE");
+    rc
+}
+
+fn run_firstuse(rep: &mut Report, runs: usize) {
+    let exe = match std::env::current_exe() {
+        Ok(e) => e,
+        Err(e) => {
+            rep.inconclusive(format!("first use: cannot find the engine binary: {}", e));
+            return;
+        }
+    };
+    let mut failed = 0usize;
+    for k in 0..runs {
+        rep.inc("evaluations");
+        let o = std::process::Command::new(&exe).arg("--mode").arg("firstuse-child").output();
+        let o = match o {
+            Ok(o) => o,
+            Err(_) => {
+                failed += 1;
+                continue;
+            }
+        };
+        let text = String::from_utf8_lossy(&o.stdout).to_string();
+        if !text.contains("FIRSTUSE-DONE") {
+            failed += 1;
+            continue;
+        }
+        rep.inc("first_use_processes");
+        let bad: Vec<String> = text.lines().filter(|l| l.starts_with("FIRSTUSE-BAD")).map(|l| l.to_string()).collect();
+        if !bad.is_empty() {
+            rep.violation(
+                "first_use:N10",
+                Json::obj()
+                    .set("what", "threads whose first library calls happen at the same moment in a fresh process get results that differ from their own member sets")
+                    .set("process", k)
+                    .set("problems", Json::from(bad)),
+                vec!["--mode".to_string(), "firstuse".to_string()],
+            );
+            break;
+        }
+    }
+    if failed > runs / 10 {
+        rep.inconclusive(format!("first use: {} of {} child processes failed to run", failed, runs));
+    }
+}
+
 fn main() {
     let eng = Engine::start("bitmon");
     let a = &eng.args;
     let mode = a.str("mode", "all");
-    if !["all", "random", "pairwise"].contains(&mode.as_str()) {
+    if !["all", "random", "pairwise", "giant", "firstuse", "firstuse-child"].contains(&mode.as_str()) {
         panic!("unknown mode {}", mode);
     }
     let thorough = a.thorough();
@@ -937,6 +1173,19 @@ fn main() {
         eng.finish(report);
     }
 
+    if mode == "firstuse-child" {
+        std::process::exit(firstuse_child());
+    }
+    if mode == "all" || mode == "firstuse" {
+        let mut rep = Report::new();
+        run_firstuse(&mut rep, if thorough { 400 } else { 60 });
+        report.merge(rep);
+    }
+    if (mode == "all" || mode == "giant") && !cfg!(debug_assertions) {
+        let mut rep = Report::new();
+        run_giant(&mut rep);
+        report.merge(rep);
+    }
     if mode == "all" || mode == "random" {
         let per_n: u64 = a.u64("histories-per-n", if thorough { 210_000 } else { 7_000 });
         let total = per_n * NS.len() as u64;
